@@ -603,6 +603,82 @@ fn bomb_body(drain: bool) -> vsched::Body {
     })
 }
 
+/// Waiters on an actor from an instant spawn whose start-up task has not been polled yet (status Unstarted): a
+/// wait that returns Ok promises the same as for any other actor. `api`: 0 wait(None), 1 stop_and_wait,
+/// 2 kill_and_wait, 3 drain_and_wait, 4 wait(None) by two tasks with a stop from a third.
+fn unstarted_body(api: usize, local: bool) -> vsched::Body {
+    use ractor::thread_local::{ThreadLocalActor, ThreadLocalActorSpawner};
+    Arc::new(move || {
+        Box::pin(async move {
+            let log = Log::default();
+            let spawner = ThreadLocalActorSpawner::verif_new_local();
+            let prog = Prog { pre_start: vec![Step::Tick, Step::Yield, Step::Tick], post_stop: vec![Step::Yield, Step::Tick], ..Default::default() };
+            let spawned = if local {
+                <Probe as ThreadLocalActor>::spawn_instant(Some("A".into()), args("A", prog, &log), spawner.clone())
+            } else {
+                ractor::ActorRuntime::<Probe>::spawn_instant(Some("A".into()), Probe, args("A", prog, &log))
+            };
+            let (a, outer) = spawned.expect("instant spawn");
+            let bad: Arc<Mutex<Vec<String>>> = Arc::new(Mutex::new(Vec::new()));
+            let judge = |who: &str, ok: bool, a: &ActorRef<PMsg>, log: &Log, graceful: bool, bad: &Arc<Mutex<Vec<String>>>| {
+                if !ok {
+                    return;
+                }
+                let mut v = Vec::new();
+                let st = a.get_status();
+                if st != ActorStatus::Stopped {
+                    v.push(format!("{who} returned Ok while the status was {st:?}"));
+                }
+                let started = log.of("A").iter().any(|e| e.cb == Cb::PreStart && e.kind == EvKind::ExitOk);
+                let stopped = log.of("A").iter().any(|e| e.cb == Cb::PostStop && e.kind == EvKind::ExitOk);
+                if graceful && started && !stopped {
+                    v.push(format!("{who} returned Ok before post_stop had returned"));
+                }
+                if ractor::registry::where_is("A".to_string()).is_some() {
+                    v.push(format!("{who} returned Ok while the name was still registered"));
+                }
+                bad.lock().unwrap().extend(v);
+            };
+            let mut tasks = Vec::new();
+            let n_waiters = if api == 4 { 2 } else { 1 };
+            for w in 0..n_waiters {
+                let (a2, l2, b2) = (a.clone(), log.clone(), bad.clone());
+                tasks.push(vsched::spawn("waiter", async move {
+                    let (ok, what, graceful) = match api {
+                        0 | 4 => (a2.wait(None).await.is_ok(), "wait(None)", true),
+                        1 => (a2.stop_and_wait(None, None).await.is_ok(), "stop_and_wait", true),
+                        2 => (a2.kill_and_wait(None).await.is_ok(), "kill_and_wait", false),
+                        _ => (a2.drain_and_wait(None).await.is_ok(), "drain_and_wait", true),
+                    };
+                    judge(&format!("waiter {w}: {what} on an actor that had not started yet"), ok, &a2, &l2, graceful, &b2);
+                }));
+            }
+            if matches!(api, 0 | 4) {
+                let a3 = a.clone();
+                tasks.push(vsched::spawn("closer", async move {
+                    vsched::yield_now().await;
+                    a3.stop(None);
+                }));
+            }
+            for t in tasks {
+                let _ = t.await;
+            }
+            if let Ok(Ok(h)) = outer.await {
+                let _ = h.await;
+            }
+            vsched::quiesce_time();
+            let st = a.get_status();
+            if st != ActorStatus::Stopped {
+                bad.lock().unwrap().push(format!("in the end the actor is {st:?}"));
+                a.kill();
+                vsched::quiesce_time();
+            }
+            let violations = bad.lock().unwrap().clone();
+            Outcome { key: format!("api={api} {}", Log(Arc::new(Mutex::new(log.of("A")))).render()), violations }
+        })
+    })
+}
+
 pub fn plan(tier: &str) -> Plan {
     let thorough = tier == "thorough";
     let filter: vsched::Filter = Arc::new(|k, _l, t| {
@@ -622,6 +698,15 @@ pub fn plan(tier: &str) -> Plan {
     }
     for cause in [Cause::Kill, Cause::Stop, Cause::Drain] {
         units.push(Unit::explore_split(Job::new(format!("exit/{cause:?}+twin-closer"), cfg.clone(), Some(bound), body_x(cause, true)), if thorough { 16 } else { 8 }));
+    }
+    // waits on an actor whose start-up task (instant spawn) has not been polled yet
+    for local in [false, true] {
+        for api in 0..5usize {
+            if !thorough && local && !matches!(api, 1 | 4) {
+                continue;
+            }
+            units.push(Unit::explore(Job::new(format!("unstarted/{}/{}", ["wait", "stop_and_wait", "kill_and_wait", "drain_and_wait", "two-waiters"][api], if local { "local" } else { "send" }), ExecCfg::default(), Some(bound), unstarted_body(api, local))));
+        }
     }
     // monitors build: A is monitored by an actor that is gone (or going) when A exits, next to live monitors
     for mon in [Mon::Dead, Mon::DeadAndLive, Mon::DyingMeanwhile] {
